@@ -128,6 +128,7 @@ def wf(r: "list[int]", inv: bool) -> bool:
     """well-formed ranges: triples, non-negative, ordered (adjacent allowed)"""
     return (
         len(r) % 3 == 0
+        and len(r) // 3 <= 65536  # the recover encoding keeps the range index in 16 bits
         and all_(0, len(r), lambda i: r[i] >= 0)
         and all_(0, len(r) // 3, lambda a: all_(a + 1, len(r) // 3, lambda b: end_(r, inv, a) <= start_(r, inv, b)))
     )
@@ -164,3 +165,49 @@ def ami_mirror(mm: "list[int]", total: int, n: int, k: int) -> "list[int]":
     if first_idx(mm, n - k, 0) >= 0 and mirror_of(mm, n - k) > n - k:
         return ami_mirror(mm, total, n, k - 1) + [total - n + k - 1, total - mirror_of(mm, n - k) - 1]
     return ami_mirror(mm, total, n, k - 1)
+
+
+def find_m(r: "list[int]", inv: bool, pos: int, k: int) -> int:
+    """index of the first range at or after k that contains pos (start <= pos <= end), or -1
+    when pos falls in a gap"""
+    if k < 0 or k >= len(r) // 3:
+        return -1
+    if start_(r, inv, k) > pos:
+        return -1
+    if pos <= end_(r, inv, k):
+        return k
+    return find_m(r, inv, pos, k + 1)
+
+
+def recover_of(r: "list[int]", inv: bool, pos: int, assoc: int) -> int:
+    """the recover value map_result reports, or -1 for None"""
+    m = find_m(r, inv, pos, 0)
+    if m < 0:
+        return -1
+    if recover_plain(r, inv, pos, assoc, m):
+        return -1
+    return m + (pos - start_(r, inv, m)) * 65536
+
+
+def recover_fn(r: "list[int]", inv: bool, value: int) -> int:
+    """StepMap.recover as a function"""
+    k = value % 65536
+    return r[3 * k] + (0 if inv else D(r, False, k)) + (value - value % 65536) // 65536
+
+
+def compose(ms: "list[StepMap]", frm: int, to: int, pos: int, assoc: int) -> int:
+    """left-to-right composition of the maps frm..to-1"""
+    if to <= frm:
+        return pos
+    return rule(ms[to - 1].ranges, ms[to - 1].inverted, compose(ms, frm, to - 1, pos, assoc), assoc)
+
+
+def mcompose(ms: "list[StepMap]", mirror: "list[int]", i: int, to: int, pos: int, assoc: int) -> int:
+    """composition from map i on, taking the registered mirror jumps"""
+    if i < 0 or i >= to:
+        return pos
+    rec = recover_of(ms[i].ranges, ms[i].inverted, pos, assoc)
+    corr = mirror_of(mirror, i)
+    if rec >= 0 and first_idx(mirror, i, 0) >= 0 and corr > i and corr < to:
+        return mcompose(ms, mirror, corr + 1, to, recover_fn(ms[corr].ranges, ms[corr].inverted, rec), assoc)
+    return mcompose(ms, mirror, i + 1, to, rule(ms[i].ranges, ms[i].inverted, pos, assoc), assoc)
